@@ -208,14 +208,53 @@ func (c *Ctx) ruleA4(rule string, fn *ssa.Function, isWorker func(*ssa.Call) boo
 				waits = append(waits, in)
 			}
 		})
-		if len(adds) != 1 || adds[0].Parent() != fn {
-			c.Check(rule, key+"/add", false, w.Pos(), "expected exactly one Add on %s in the executing function, found %d", w.Comment, len(adds))
+		// an Add is either the one count taken before the fan-out, or `Add(1)` in the fan-out
+		// loop itself: once per iteration, before that iteration's go statement
+		perIter := map[*fanout]ssa.Instruction{}
+		var bulk []ssa.Instruction
+		foreign := false
+		for _, a := range adds {
+			if a.Parent() != fn {
+				foreign = true
+				continue
+			}
+			matched := false
+			for _, fo := range group {
+				if fo.topGo != ssa.Instruction(fo.goStmt) || fo.loop == nil || perIter[fo] != nil {
+					continue
+				}
+				if !fo.loop.Blocks[a.Block()] || x.InnermostLoop(a.Block()) != fo.loop {
+					continue
+				}
+				if x.symInt(a.(*ssa.Call).Call.Args[1]).equal(constForm(1)) && domInstr(a, fo.goStmt) && len(x.GuardsOfInLoop(a.Block())) == 0 {
+					perIter[fo] = a
+					matched = true
+					break
+				}
+			}
+			if !matched {
+				bulk = append(bulk, a)
+			}
+		}
+		var rest []*fanout
+		for _, fo := range group {
+			if perIter[fo] == nil {
+				rest = append(rest, fo)
+			}
+		}
+		if foreign || len(bulk) > 1 || (len(bulk) == 0 && len(rest) > 0) || (len(bulk) == 1 && len(rest) == 0) {
+			c.Check(rule, key+"/add", false, w.Pos(), "expected one Add on %s before the fan-out (or Add(1) at the head of each iteration of a fan-out loop) in the executing function, found %d", w.Comment, len(adds))
 			continue
 		}
-		add := adds[0]
+		var add ssa.Instruction
+		if len(bulk) == 1 {
+			add = bulk[0]
+		} else {
+			add = perIter[group[0]]
+		}
 		// Add dominates every fan-out of the group and is outside their loops
 		addOK := true
-		for _, fo := range group {
+		for _, fo := range rest {
 			if !domInstr(add, fo.topGo) {
 				addOK = false
 			}
@@ -224,10 +263,12 @@ func (c *Ctx) ruleA4(rule string, fn *ssa.Function, isWorker func(*ssa.Call) boo
 			}
 		}
 		// every loop containing Add must contain the fan-outs too
-		for _, l := range x.EnclosingLoops(add.Block()) {
-			for _, fo := range group {
-				if !l.Blocks[fo.topGo.Block()] {
-					addOK = false
+		if len(bulk) == 1 {
+			for _, l := range x.EnclosingLoops(add.Block()) {
+				for _, fo := range group {
+					if !l.Blocks[fo.topGo.Block()] {
+						addOK = false
+					}
 				}
 			}
 		}
@@ -240,6 +281,9 @@ func (c *Ctx) ruleA4(rule string, fn *ssa.Function, isWorker func(*ssa.Call) boo
 				countable = false
 				continue
 			}
+			if perIter[fo] != nil {
+				continue // one Add(1) and one go statement per iteration
+			}
 			fx := x
 			if fo.isMap {
 				total = total.add(atomForm("len("+fx.canon(fo.ranged)+")"), 1)
@@ -247,8 +291,22 @@ func (c *Ctx) ruleA4(rule string, fn *ssa.Function, isWorker func(*ssa.Call) boo
 				total = total.add(fx.symLen(fo.ranged), 1)
 			}
 		}
-		n := x.symInt(add.(*ssa.Call).Call.Args[1])
-		c.Check(rule, key+"/count", countable && n.equal(total), add.Pos(), "Add(%s) against %s goroutines started", n, total)
+		if len(bulk) == 1 {
+			n := x.symInt(add.(*ssa.Call).Call.Args[1])
+			c.Check(rule, key+"/count", countable && n.equal(total), add.Pos(), "Add(%s) against %s goroutines started", n, total)
+		} else {
+			c.Check(rule, key+"/count", countable, add.Pos(), "Add(1) per iteration against one goroutine per iteration")
+		}
+		// the fan-out loop of a fan-out (as opposed to a loop around the whole stage)
+		fanLoop := func(fo *fanout, tl *Loop) bool {
+			if tl == nil {
+				return false
+			}
+			if perIter[fo] != nil {
+				return tl == fo.loop
+			}
+			return !tl.Blocks[add.Block()]
+		}
 		// barrier
 		if len(waits) == 0 {
 			c.Check(rule, key+"/wait", false, add.Pos(), "nobody waits for %s", w.Comment)
@@ -274,7 +332,7 @@ func (c *Ctx) ruleA4(rule string, fn *ssa.Function, isWorker func(*ssa.Call) boo
 		var starts []ssa.Instruction
 		for _, fo := range group {
 			tl := x.InnermostLoop(fo.topGo.Block())
-			if tl != nil && x.loopWithin(tl, add) {
+			if fanLoop(fo, tl) {
 				for _, t := range tl.exitTargets() {
 					starts = append(starts, t.Instrs[0])
 				}
@@ -287,7 +345,7 @@ func (c *Ctx) ruleA4(rule string, fn *ssa.Function, isWorker func(*ssa.Call) boo
 		for _, fo := range group {
 			tl := x.InnermostLoop(fo.topGo.Block())
 			for _, l := range x.EnclosingLoops(fo.topGo.Block()) {
-				if l != tl || !x.loopWithin(tl, add) {
+				if l != tl || !fanLoop(fo, tl) {
 					// an enclosing loop (DAG layers): reaching its head again starts the next round
 					heads = append(heads, l.Head.Instrs[0])
 				}
